@@ -365,3 +365,89 @@ def ctor_arg(ctx: Ctx, call: ast.Call, cls_name: str, param: str
     if not inits:
         return None
     return bound_arg(call, inits[0].node, param, method=True)
+
+
+SHALLOW_COPIERS = {"list", "dict", "tuple", "set", "sorted", "iter",
+                   "reversed", "filter", "map", "copy", "frozenset",
+                   "enumerate", "zip"}
+HARMLESS_BUILTINS = SHALLOW_COPIERS | {"len", "isinstance", "print", "bool",
+                                       "str", "repr", "id", "any", "all",
+                                       "type", "hash"}
+
+
+def shared_object_uses(ctx: Ctx, fi: FuncInfo, roots: set[str],
+                       mutators: set[str], after_line: int = 0
+                       ) -> tuple[int, list[tuple[ast.AST, ast.Call]], set[str]]:
+    """May-alias escape analysis for "this object must only be deep-copied".
+
+    ``roots``: local names holding the protected object(s).  Returns
+    (number of deepcopy calls that receive an alias, list of (argument, call)
+    where an alias -- the object itself, a view (attribute / subscript /
+    method result), a shallow copy, a tuple or comprehension containing it,
+    one arm of a conditional expression -- is handed to a call whose resolved
+    callee closure intersects ``mutators`` or is unresolved and not a
+    harmless builtin, the alias set)."""
+    defs = ctx.defs(fi)
+    aliases = set(roots)
+
+    def is_deepcopy(c: ast.Call) -> bool:
+        return (dotted(c.func) or "").split(".")[-1] == "deepcopy"
+
+    def may_alias(e: ast.AST) -> bool:
+        if isinstance(e, ast.Name):
+            return e.id in aliases
+        if isinstance(e, ast.IfExp):
+            return may_alias(e.body) or may_alias(e.orelse)
+        if isinstance(e, ast.BoolOp):
+            return any(may_alias(v) for v in e.values)
+        if isinstance(e, (ast.Attribute, ast.Subscript, ast.Starred)):
+            return may_alias(e.value)
+        if isinstance(e, ast.NamedExpr):
+            return may_alias(e.value)
+        if isinstance(e, ast.Call):
+            if is_deepcopy(e):
+                return False
+            if isinstance(e.func, ast.Attribute) and may_alias(e.func.value):
+                return True
+            if (dotted(e.func) or "").split(".")[-1] in SHALLOW_COPIERS:
+                return any(may_alias(x) for x in e.args)
+            return False
+        if isinstance(e, (ast.ListComp, ast.SetComp, ast.GeneratorExp,
+                          ast.DictComp)):
+            return any(may_alias(g.iter) for g in e.generators)
+        if isinstance(e, (ast.Tuple, ast.List, ast.Set)):
+            return any(may_alias(x) for x in e.elts)
+        return False
+
+    changed = True
+    while changed:
+        changed = False
+        for name, bs in defs.bindings.items():
+            if name in aliases:
+                continue
+            for b in bs:
+                if b.value is not None and b.kind in (
+                        "assign", "for", "comp", "with") and getattr(
+                        b.stmt, "lineno", 0) > after_line \
+                        and may_alias(b.value):
+                    aliases.add(name)
+                    changed = True
+    copies, bad = 0, []
+    for call in ast.walk(fi.node):
+        if not isinstance(call, ast.Call) or getattr(call, "lineno", 0) <= \
+                after_line:
+            continue
+        actuals = list(call.args) + [k.value for k in call.keywords]
+        if not any(may_alias(x) for x in actuals):
+            continue
+        if is_deepcopy(call):
+            copies += 1
+            continue
+        callees = [c.qualname for st in ctx.cg.sites_in(fi)
+                   if st.node is call for c in st.callees]
+        if not callees and (dotted(call.func) or "").split(".")[-1] in \
+                HARMLESS_BUILTINS:
+            continue
+        if any(q in mutators for q in callees) or not callees:
+            bad.append((next(x for x in actuals if may_alias(x)), call))
+    return copies, bad, aliases
